@@ -26,7 +26,11 @@ func main() {
 	verbose := fs.Bool("v", false, "verbose")
 	noBaseline := fs.Bool("nobaseline", false, "ignore the baseline (report every undischarged obligation)")
 	updateBaseline := fs.Bool("update-baseline", false, "rewrite the baseline entry of this property from this run")
+	pkgsFlag := fs.String("pkgs", "", "comma-separated package patterns to load instead of clover's (engine self-test corpus)")
 	fs.Parse(os.Args[2:])
+	if *pkgsFlag != "" {
+		cloverPkgs = strings.Split(*pkgsFlag, ",")
+	}
 	if *outDir == "" {
 		*outDir = *verif + "/out"
 	}
